@@ -230,6 +230,8 @@ class TrProc(Tr):
     final values of the mutated parameters.  Statements: `if c: <mutations>` (no else), `xs.append(e)`,
     `d[k] = e`, calls on `logger` (ignored), `for i, x in enumerate(xs): <mutations>`."""
 
+    assoc = ()        # names of parameters that are dicts read with d[k] (association lists)
+
     def mutated(self, stmts):
         out = []
         for s in stmts:
@@ -247,13 +249,23 @@ class TrProc(Tr):
 
     def expr(self, e):
         if isinstance(e, ast.Compare) and len(e.ops) == 1 and isinstance(e.ops[0], (ast.In, ast.NotIn)):
-            b1, a = Tr.expr(self, e.left)
-            b2, c = Tr.expr(self, e.comparators[0])
+            b1, a = self.expr(e.left)
+            b2, c = self.expr(e.comparators[0])
             t = "(pyContains %s %s)" % (c, a)
             return b1 + b2, t if isinstance(e.ops[0], ast.In) else "(!%s)" % t
         if isinstance(e, ast.BinOp) and isinstance(e.op, ast.Add) and isinstance(e.right, ast.Constant) and isinstance(e.right.value, int):
             b, a = self.expr(e.left)
             return b, "(%s + %d)" % (a, e.right.value)
+        if isinstance(e, ast.Call) and isinstance(e.func, ast.Attribute) and e.func.attr == "keys" and not e.args and isinstance(e.func.value, ast.Name):
+            return [], "(pyKeys %s)" % e.func.value.id
+        if isinstance(e, ast.Call) and isinstance(e.func, ast.Name) and e.func.id == "max" and len(e.args) == 1:
+            b, a = self.expr(e.args[0])
+            t = self.fresh()
+            return b + [(t, "pyMax %s" % a)], t
+        if isinstance(e, ast.Subscript) and isinstance(e.value, ast.Name) and e.value.id in self.assoc:
+            b, k = self.expr(e.slice)
+            t = self.fresh()
+            return b + [(t, "pyAssocGet %s %s" % (e.value.id, k))], t
         if isinstance(e, ast.Call) and isinstance(e.func, ast.Attribute) and e.func.attr == "index" and len(e.args) == 1:
             b, recv = self.expr(e.func.value)
             b2, a = self.expr(e.args[0])
@@ -282,6 +294,31 @@ class TrProc(Tr):
             b1, k = self.expr(s.targets[0].slice)
             b2, v = self.expr(s.value)
             return self.binds(b1 + b2, "%slet %s := pyDictSet %s %s %s\n" % (pad, d, d, k, v) + self.stmts(rest, ind, final), ind)
+        if isinstance(s, ast.Assign) and len(s.targets) == 1 and isinstance(s.targets[0], ast.Name) and isinstance(s.value, ast.List) and not s.value.elts:
+            return "%slet %s : List Str := []\n" % (pad, s.targets[0].id) + self.stmts(rest, ind, final)
+        if isinstance(s, ast.Assign) and len(s.targets) == 1 and isinstance(s.targets[0], ast.Name):
+            b, t = self.expr(s.value)
+            return self.binds(b, "%slet %s := %s\n" % (pad, s.targets[0].id, t) + self.stmts(rest, ind, final), ind)
+        if isinstance(s, ast.Return) and not rest:
+            b, t = self.expr(s.value)
+            return self.binds(b, "%s.ok %s\n" % (pad, t), ind)
+        if isinstance(s, ast.If) and s.orelse:
+            vs = self.mutated([s])
+            tup = vs[0] if len(vs) == 1 else "(" + ", ".join(vs) + ")"
+            b, c = self.expr(s.test)
+            th = self.stmts(s.body, ind + 2, ".ok %s" % tup)
+            el = self.stmts(s.orelse, ind + 2, ".ok %s" % tup)
+            txt = "%sbindE (if %s then\n%s%s  else\n%s%s  ) fun %s =>\n" % (pad, c, th, pad, el, pad, tup)
+            return self.binds(b, txt + self.stmts(rest, ind, final), ind)
+        if isinstance(s, ast.For) and isinstance(s.iter, ast.Call) and isinstance(s.iter.func, ast.Name) and s.iter.func.id == "range" \
+                and len(s.iter.args) == 2 and isinstance(s.target, ast.Name) and not s.orelse:
+            b1, lo = self.expr(s.iter.args[0])
+            b2, hi = self.expr(s.iter.args[1])
+            vs = self.mutated(s.body)
+            tup = vs[0] if len(vs) == 1 else "(" + ", ".join(vs) + ")"
+            inner = self.stmts(s.body, ind + 2, ".ok %s" % tup)
+            txt = "%sbindE (pyRangeFoldE %s %s %s fun (%s : Int) %s =>\n%s%s  ) fun %s =>\n" % (pad, lo, hi, tup, s.target.id, tup, inner, pad, tup)
+            return self.binds(b1 + b2, txt + self.stmts(rest, ind, final), ind)
         if isinstance(s, ast.If) and not s.orelse:
             vs = self.mutated(s.body)
             tup = vs[0] if len(vs) == 1 else "(" + ", ".join(vs) + ")"
@@ -340,6 +377,15 @@ def main():
             out.append("def extend_namespace_map (%s : List Str) (%s : List Str) (%s : List (Int × Int)) : Except PyErr (%s) :=" %
                        (a[0], a[1], a[2], " × ".join("List Str" if v == a[0] else "List (Int × Int)" for v in vs)))
             out.append(tr.stmts(f.body, 1, ".ok (%s)" % ", ".join(vs)))
+            ug = ast.parse(open(os.path.join(repo, "opcua_tools", "ua_graph.py"), encoding="utf-8").read())
+            f = find(ug, "UAGraph._get_namespace_list")
+            a = [x.arg for x in f.args.args]
+            tr = TrProc()
+            tr.assoc = (a[0],)
+            out.append("")
+            out.append("/-- `UAGraph._get_namespace_list` (a static method): the dict is an association list in insertion order -/")
+            out.append("def get_namespace_list (%s : List (Int × Str)) : Except PyErr (List Str) :=" % a[0])
+            out.append(tr.stmts(f.body, 1, ".error .typeError"))
     except Unsupported as u:
         print("UNSUPPORTED: %s" % u, file=sys.stderr)
         sys.exit(3)
